@@ -483,6 +483,7 @@ func kRun(r *vk.Run, prop string, scenarios []kScenario, c09, c13 bool, rule str
 	r.Assume("API bodies hold stateLock for their whole body (PlotWS: read lock) and the plotter holds it for steps 1 and 3, so gate granularity (idle, popped, step1.done, plot.returned, space.done) covers every order observable through states; unsynchronised accesses between gates are not enumerated",
 		"fake plot database: Plot() blocks until the scheduler delivers completion (progress 100) or abort; StopPlot aborts it", "at most 2 operations in flight; quiescence from runtime.Stack wait reasons; ants pool housekeeping goroutines ignored")
 	if !child {
+		r.PanicIsViolation = true
 		r.RunShards(vk.Workers(), 1)
 		r.Finish(rule)
 	}
